@@ -415,3 +415,208 @@ Example ex_check_noise_accepts :
        {| shape := [3; 3]%Z; data := Node (map (fun r => Node (map Leaf r)) [[9; 9; 1]; [9; 2; 3]; [4; 5; 9]]%Z) |}
        [1; 1]%Z (Some 4) (Some (5 # 2))) = 0%N.
 Proof. vm_compute. reflexivity. Qed.
+
+(* ==========================================================================
+   13. ROUTE T.  Gen/tail.v is regenerated by tools/py2coq_tail.py from the CURRENT text of
+   trackpy/uncertainty.py (measure_noise, _root_sum_x_squared, _static_error, static_error) and
+   trackpy/feature.py (locate from the statement after `refined_coords = refine_com(...)` to the
+   final return: py_locate_tail; batch: py_batch) on every run of the check, statement by
+   statement, over the vocabulary Model/PyTail.v (numpy / scipy / pandas operations are named
+   primitives with the meaning the hand-written models give them).  Proofs/TailGen.v proves, for
+   all inputs, that the generated functions ARE the models the theorems above are stated about;
+   the headline theorems are restated here for the generated functions. *)
+From TP Require Import Model.PyTail Gen.tail Proofs.TailGen.
+
+(* 13a. the generated functions are the models *)
+Theorem C08_gen_measure_noise_is_model : forall sqrtf im raw radius,
+  py_measure_noise sqrtf im raw radius =
+  (of_opt (fst (measure_noise sqrtf im raw radius)), of_opt (snd (measure_noise sqrtf im raw radius))).
+Proof. exact py_measure_noise_eq. Qed.
+Print Assumptions C08_gen_measure_noise_is_model.
+
+Theorem C08_gen_static_error_arr_is_model : forall sqrtf mass noise radius noise_size,
+  py__static_error sqrtf mass noise radius noise_size = static_error_arr sqrtf mass noise radius noise_size.
+Proof. exact py_static_error_arr_eq. Qed.
+Print Assumptions C08_gen_static_error_arr_is_model.
+
+(*      the public static_error: [diameter] / [noise_size] are the validated tuples; when diameter
+        is a scalar (not iterable) its length is the parameter ndim; per-frame noise is the value
+        joined to each feature on 'frame' *)
+Theorem C08_gen_static_error_is_model : forall sqrtf it features noise diameter noise_size ndim,
+  (it = false -> ndim = List.length diameter) ->
+  py_static_error sqrtf it features noise diameter noise_size ndim =
+  static_error sqrtf (se_mass features)
+               (match noise with NIScalar v => NScalar v | NITable t => NSeries (joined_noise features t) end)
+               diameter noise_size.
+Proof. exact py_static_error_eq. Qed.
+Print Assumptions C08_gen_static_error_is_model.
+
+(*      the tail of locate on refine_com's table [rows] (RangeIndex; position columns pc; with
+        characterize [ch] the columns raw_mass / signal; with [hs] the column size): it returns
+        [tail_result]: the empty table unchanged; KeyError 'size' when maxsize is given and the
+        column is missing; the empty table when nothing passes the filters (no ep columns, no frame
+        tag); else the rows LocateTail.select keeps of LocateTail.candidates with the entries of
+        StaticError.locate_ep_arr (noise / black level by LocatePipe.measure_noise) attached row by
+        row under the names 'ep' / 'ep_' + pos_columns, and the frame tag *)
+Theorem C08_gen_tail_is_model : forall sqrtf pc ch hs sep sf mm ms topn im raw fno radius nd ns rows,
+  py_locate_tail sqrtf (df_of_rows pc ch hs rows) sep pc sf mm ms topn ch im raw fno radius nd ns =
+  tail_result sqrtf pc ch hs sep sf mm ms topn im raw fno radius ns rows.
+Proof. exact py_locate_tail_eq. Qed.
+Print Assumptions C08_gen_tail_is_model.
+
+(*      ... and that table is LocateTail.tail (the function theorems 1-9 are about) line by line:
+        same index labels, same rows, ep entries equal as float64 values (the array formula of
+        _static_error and the per-row formula of the tail differ in the grouping of the products) *)
+Theorem C08_gen_tail_is_tail : forall sqrtf pc ch hs sep sf mm ms topn im raw fno radius nd ns rows d,
+  py_locate_tail sqrtf (df_of_rows pc ch hs rows) sep pc sf mm ms topn ch im raw fno radius nd ns = ROk d ->
+  Forall2 (fun x y => fst x = fst y /\ Forall2 feq (snd x) (snd y))
+          (df_lines d) (tail (tail_P sqrtf sep sf mm ms topn im raw radius ns ch) rows).
+Proof. exact py_tail_is_tail. Qed.
+Print Assumptions C08_gen_tail_is_tail.
+
+(*      the glue: LocatePipe.locate_on (head: maxima, refinement; then the hand-written tail) and the
+        same head followed by the GENERATED tail return the same answer (None = locate raises) *)
+Theorem C08_gen_locate_on_is_model : forall percentile sqrtf pc fno L im raw,
+  match locate_on_gen percentile sqrtf pc fno L im raw, locate_on percentile sqrtf L im raw with
+  | Some x, Some y => Forall2 (fun a b => fst a = fst b /\ Forall2 feq (snd a) (snd b)) x y
+  | None, None => True
+  | _, _ => False
+  end.
+Proof. exact locate_on_gen_eq. Qed.
+Print Assumptions C08_gen_locate_on_is_model.
+
+(* 13b. theorem 1 for the generated tail: filters, inside the image, separation, ep not negative *)
+Theorem C08_gen_filters_and_bounds : forall shape sqrtf pc ch hs sep sf mm ms topn im raw fno radius nd ns rows d,
+  Forall (fun r => inside_image shape (r_pos r)) rows ->
+  py_locate_tail sqrtf (df_of_rows pc ch hs rows) sep pc sf mm ms topn ch im raw fno radius nd ns = ROk d ->
+  Forall (fun x => mm < r_mass (fst x) /\ match ms with None => True | Some s => r_size (fst x) < s end) (gen_out d) /\
+  Forall (fun x => inside_image shape (r_pos (fst x))) (gen_out d) /\
+  (Forall (fun s => 0 < s) sep ->
+     forall i j a b, i <> j -> nth_error (map fst (gen_out d)) i = Some a -> nth_error (map fst (gen_out d)) j = Some b ->
+       ~ dist2_sep sep (r_pos a) (r_pos b) < 1) /\
+  Forall (fun x => Forall ep_not_negative (snd x)) (gen_out d).
+Proof. exact gen_tail_output_ok. Qed.
+Print Assumptions C08_gen_filters_and_bounds.
+
+(*      theorem 3 for the generated tail: a selection of the deduplicated, rescaled table *)
+Theorem C08_gen_topn_selection : forall sqrtf pc ch hs sep sf mm ms topn im raw fno radius nd ns rows d,
+  topn <> Some 0%nat ->
+  py_locate_tail sqrtf (df_of_rows pc ch hs rows) sep pc sf mm ms topn ch im raw fno radius nd ns = ROk d ->
+  exists removed,
+    Permutation (map fst (gen_out d) ++ removed) (candidates sep sf rows) /\
+    Forall (keeps mm ms) (map fst (gen_out d)) /\
+    match topn with
+    | None => Forall (fun r => ~ keeps mm ms r) removed
+    | Some n => (List.length (map fst (gen_out d)) <= n)%nat /\
+                forall r, In r removed -> keeps mm ms r ->
+                  List.length (map fst (gen_out d)) = n /\ Forall (fun o => r_mass r <= r_mass o) (map fst (gen_out d))
+    end.
+Proof. exact gen_tail_selection. Qed.
+Print Assumptions C08_gen_topn_selection.
+
+(*      theorems 11 for the generated code: no entry of any ep column is negative, in the block of
+        locate and in the public static_error *)
+Theorem C08_gen_locate_ep_not_negative : forall sqrtf radius noise_size black noise raw_mass,
+  Forall (Forall ep_not_negative)
+    (ep_table (nan_negative (py__static_error sqrtf
+        (arr_sub_scalar raw_mass (fmul (fZ (N_binary_mask radius (List.length radius))) black)) (NScalar noise) radius noise_size))).
+Proof. exact gen_locate_ep_not_negative. Qed.
+Print Assumptions C08_gen_locate_ep_not_negative.
+
+Theorem C08_gen_static_error_not_negative : forall sqrtf it features noise diameter noise_size ndim,
+  (it = false -> ndim = List.length diameter) ->
+  Forall (fun c => Forall ep_not_negative (snd c)) (py_static_error sqrtf it features noise diameter noise_size ndim).
+Proof. exact gen_static_error_not_negative. Qed.
+Print Assumptions C08_gen_static_error_not_negative.
+
+(*      theorem 10 for the pipeline with the generated tail *)
+Theorem C08_gen_inside_image : forall percentile sqrtf pc fno (L : LocatePipe.lparams) im raw out,
+  (forall p, (0 <= pix im p)%Z) ->
+  Forall (fun r => (0 <= r)%Z) (l_radius L) ->
+  List.length (l_radius L) = List.length (shape im) ->
+  List.length (l_sep L) = List.length (shape im) -> List.length (l_smooth L) = List.length (shape im) ->
+  (l_numba L = true -> (2 <= List.length (l_radius L))%nat /\ Forall (fun r => (1 <= r)%Z) (l_radius L)) ->
+  locate_on_gen percentile sqrtf pc fno L im raw = Some out ->
+  Forall (fun x => in_a_window (l_radius L) (shape im) (r_pos (snd (fst x))) /\
+                   inside_image (map inject_Z (shape im)) (r_pos (snd (fst x)))) out.
+Proof. exact gen_locate_inside_image. Qed.
+Print Assumptions C08_gen_inside_image.
+
+(* non-vacuity: the generated tail on the example of theorem 1-9 (ex_rows, ex_P): same two rows,
+   same labels, same ep as ex_output; the image / radius only matter for the static error, which
+   is given here by a 3 x 3 image with one lit pixel (black level 0 over 5 background pixels ...) *)
+Example ex_gen_tail_runs :
+  match py_locate_tail (fun q => q) (df_of_rows ["y"; "x"]%string false false ex_rows) [6; 6] ["y"; "x"]%string 2 50 None (Some 2%nat)
+                       false ex_negative_image ex_negative_image (Some 7%nat) [1; 1]%Z 2%nat [1; 1] with
+  | ROk d => Some (map (fun x => (fst (fst x), r_pos (snd (fst x)), Qred (r_mass (snd (fst x))))) (df_lines d), df_frame d)
+  | RRaise _ => None
+  end = Some ([ (1%nat, [30; 30], 200); (2%nat, [50; 20], 200) ], Some 7%nat).
+Proof. vm_compute. reflexivity. Qed.
+
+Example ex_gen_tail_keyerror :
+  py_locate_tail (fun q => q) (df_of_rows ["y"; "x"]%string false false ex_rows) [6; 6] ["y"; "x"]%string 2 50 (Some 3) None
+                 false ex_negative_image ex_negative_image None [1; 1]%Z 2%nat [1; 1] = RRaise (EKeyError "size").
+Proof. vm_compute. reflexivity. Qed.
+
+(* ==========================================================================
+   14. batch (feature.py), ROUTE T -- the theorems about batch belong to C09 (Properties/C09.v
+   (5), (6), (17)-(20), stated about Model/Equivariance.batch_map and Model/LocateWhole.batch_pool);
+   they are RESTATED here for the generated py_batch (output, meta, after_locate at their default
+   None).  A frame is its image and its frame_no attribute; kwargs is abstract with its two
+   operations; locate_rows is locate without the frame tag.
+   ---- section owned by C09, restated for the generated code ---- *)
+From TP Require Import Model.Equivariance Model.LocateWhole.
+
+(* (C09-5g) in the calling process: the generated batch is the model batch_map -- except on an
+   EMPTY frame sequence, where the code raises UnboundLocalError (`features` is bound only by the
+   loop and read by the empty-result branch) while the model returns the empty table *)
+Theorem C08_gen_batch_in_process_is_model :
+  forall (F R KW D : Type) (locate_rows : KW -> F -> list R) kw_mem (kw_set : KW -> string -> D -> KW)
+         frames diameter seen kwargs,
+  kw_mem "raw_image"%string kwargs = false ->
+  py_batch locate_rows kw_mem kw_set frames diameter (InProcess seen) kwargs =
+  match frames with
+  | [] => RRaise (EUnboundLocal "features")
+  | _ :: _ => ROk (batch_map (pframe F) R (fun f => locate_rows (kw_set kwargs "diameter"%string diameter) (pf_img f)) pf_no seen frames)
+  end.
+Proof. intros F R KW D. exact (@py_batch_in_process F R KW D). Qed.
+Print Assumptions C08_gen_batch_in_process_is_model.
+
+(* (C09-17g) over a pool: the generated batch is the model batch_pool *)
+Theorem C08_gen_batch_pool_is_model :
+  forall (F R KW D : Type) (locate_rows : KW -> F -> list R) kw_mem (kw_set : KW -> string -> D -> KW)
+         frames diameter c csched seen kwargs,
+  kw_mem "raw_image"%string kwargs = false ->
+  (0 < c)%nat -> (forall k, (k * c < List.length frames)%nat -> In k csched) ->
+  py_batch locate_rows kw_mem kw_set frames diameter (Pool c csched seen) kwargs =
+  match frames with
+  | [] => RRaise (EUnboundLocal "features")
+  | _ :: _ => ROk (batch_pool (pframe F) R (fun f => locate_rows (kw_set kwargs "diameter"%string diameter) (pf_img f)) pf_no
+                              c csched seen frames)
+  end.
+Proof. intros F R KW D. exact (@py_batch_pool F R KW D). Qed.
+Print Assumptions C08_gen_batch_pool_is_model.
+
+(* (C09-5/17/19g) hence, for a non-empty frame sequence: whatever the pool (chunk size, completion
+   order, visibility of the attribute in the workers) and in the calling process, the generated
+   batch returns locate on each frame, every row tagged with the frame's number (its frame_no, else
+   its position), concatenated in frame order *)
+Theorem C08_gen_batch_is_tagged_concatenation :
+  forall (F R KW D : Type) (locate_rows : KW -> F -> list R) kw_mem (kw_set : KW -> string -> D -> KW)
+         frames diameter kwargs p,
+  kw_mem "raw_image"%string kwargs = false -> frames <> [] ->
+  match p with
+  | InProcess _ => True
+  | Pool c csched _ => (0 < c)%nat /\ (forall k, (k * c < List.length frames)%nat -> In k csched)
+  end ->
+  py_batch locate_rows kw_mem kw_set frames diameter p kwargs =
+  ROk (tagged_from (pframe F) R (fun f => locate_rows (kw_set kwargs "diameter"%string diameter) (pf_img f)) pf_no 0 frames).
+Proof. intros F R KW D. exact (@py_batch_tagged F R KW D). Qed.
+Print Assumptions C08_gen_batch_is_tagged_concatenation.
+
+Example ex_gen_batch :
+  py_batch (fun (_ : unit) (n : nat) => seq 0 (n - 22)) (fun _ _ => false) (fun k _ (_ : unit) => k)
+           [mkPF 25 (Some 25); mkPF 24 (Some 24); mkPF 23 None]%nat tt (Pool 2 [1; 0]%nat Nat.even) tt
+  = ROk [(0, 25); (1, 25); (2, 25); (0, 24); (1, 24); (0, 2)]%nat.
+Proof. vm_compute. reflexivity. Qed.
+(* ---- end of the section restated from C09 ---- *)
